@@ -3,6 +3,11 @@
 (* sequences included, so that a conjugated exponent, an off-by-one in k, a dropped normalisation or a   *)
 (* product taken for a sum changes the value at w = pi/2.  Frequencies at which a denominator vanishes   *)
 (* are kept only for w = 0 (the nan clause); see Covered in FreqResp.                                    *)
+(*                                                                                                       *)
+(* A grid is a function from group keys to sets of cases (FreqResp.Cases).  A group key is a record      *)
+(* [t |-> kind of group, b |-> numerator (rationals), x |-> leading block samples, n |-> number] with    *)
+(* the same fields in every group.  Everything that builds many cases takes a parameter: TLC evaluates   *)
+(* every parameterless definition at start-up.                                                           *)
 EXTENDS FreqResp
 
 RSeqs(S, lens) == UNION {[1..n -> S] : n \in lens}
@@ -11,86 +16,100 @@ I(s)    == [i \in DOMAIN s |-> R(s[i])]
 Sec(b, a)       == [b |-> b, a |-> a, adv |-> 0]
 SecAdv(b, a, v) == [b |-> b, a |-> a, adv |-> v]
 Single(s)       == [comb |-> "single", secs |-> <<s>>]
+Key(t, b, x, n) == [t |-> t, b |-> b, x |-> x, n |-> n]
 
 AllMs == <<0, 1, 2, 3>>
 \* the frequencies of AllMs the property covers for a filter
 MsFor(f) == SelectSeq(AllMs, LAMBDA m : CoveredFilt(f, m))
+FrList(f) == [kind |-> "fr", filt |-> f, ms |-> MsFor(f), cont |-> "list"]
 
-BSmall == RSeqs({R(-1), R(0), R(1), R(2)}, {1, 2, 3})
-BFull  == RSeqs({R(-2), R(-1), R(0), R(1), R(2)}, {1, 2, 3, 4})
-ARec   == {<<R(a0)>> \o r : a0 \in {1, 2}, r \in RSeqs({R(-1), R(0), Half}, {0, 1, 2})}
-ARecQ  == {<<R(a0)>> \o r : a0 \in {1, 2}, r \in RSeqs({R(-1), R(0), Half}, {0, 1})
-                                                \cup {<<R(-1), Half>>, <<Half, Half>>, <<R(0), R(-1)>>, <<Half, R(-1)>>}}
+BPool(tier) == IF tier = "quick" THEN RSeqs({R(-1), R(0), R(1), R(2)}, {1, 2, 3})
+               ELSE RSeqs({R(-2), R(-1), R(0), R(1), R(2)}, {1, 2, 3, 4})
+APool(tier) == IF tier = "quick"
+               THEN {<<R(a0)>> \o r : a0 \in {1, 2}, r \in RSeqs({R(-1), R(0), Half}, {0, 1})
+                                        \cup {<<R(-1), Half>>, <<Half, Half>>, <<R(0), R(-1)>>, <<Half, R(-1)>>}}
+               ELSE {<<R(a0)>> \o r : a0 \in {1, 2}, r \in RSeqs({R(-1), R(0), Half}, {0, 1, 2})}
 
-\* --- freq_response of one LinearFilter, all covered frequencies in a list
-FrSingle(B, A) == {[kind |-> "fr", filt |-> Single(Sec(b, a)), ms |-> MsFor(Single(Sec(b, a))), cont |-> "list"] :
-                     b \in B, a \in A}
+\* --- freq_response of one LinearFilter b/a, all covered frequencies in a list      (group: the numerator b)
+FrSingleOf(b, tier) == {FrList(Single(Sec(b, a))) : a \in APool(tier)}
 
 \* --- Laurent numerators (a positive power of z), sparse shapes, an empty numerator
-Shapes == {Sec(I(<<1, 0, 0, 0, -1>>), I(<<1>>)), Sec(I(<<0, 0, 0, 2>>), I(<<2, 0, 0, 1>>)), Sec(<<>>, I(<<1, -1>>)),
-           Sec(I(<<1, 2>>), <<R(1), RZero, RZero, Half>>), Sec(<<Half, R(1), R(-2)>>, I(<<-1, 0, 2>>)),
-           Sec(I(<<0, 0>>), I(<<1>>)), Sec(I(<<1, -1, 1, -1, 1>>), I(<<2, 1>>))}
+Shapes(u) == {Sec(I(<<1, 0, 0, 0, -1>>), I(<<1>>)), Sec(I(<<0, 0, 0, 2>>), I(<<2, 0, 0, 1>>)), Sec(<<>>, I(<<1, -1>>)),
+              Sec(I(<<1, 2>>), <<R(1), RZero, RZero, Half>>), Sec(<<Half, R(1), R(-2)>>, I(<<-1, 0, 2>>)),
+              Sec(I(<<0, 0>>), I(<<1>>)), Sec(I(<<1, -1, 1, -1, 1>>), I(<<2, 1>>))}
     \cup {SecAdv(b, a, v) : b \in {I(<<1, 2>>), I(<<0, 1, -1>>), I(<<2, 0, 1>>)}, a \in {I(<<1>>), I(<<2, -1>>)},
                             v \in {1, 2}}
-FrShapes == {[kind |-> "fr", filt |-> Single(s), ms |-> MsFor(Single(s)), cont |-> "list"] : s \in Shapes}
+FrShapes(u) == {FrList(Single(s)) : s \in Shapes(u)}
 
 \* --- containers of frequencies of every supported kind
-ContFilts == {Single(Sec(I(<<1, 2, -1>>), <<R(2), R(-1)>>)), Single(Sec(I(<<1, -2>>), <<R(1), Half, Half>>)),
-              [comb |-> "cascade", secs |-> <<Sec(I(<<1, 1>>), I(<<1>>)), Sec(I(<<1>>), <<R(1), Half>>)>>],
-              [comb |-> "parallel", secs |-> <<Sec(I(<<1, 2>>), I(<<2>>)), Sec(I(<<0, 1>>), <<R(2), R(-1)>>)>>]}
+ContFilts(u) == {Single(Sec(I(<<1, 2, -1>>), <<R(2), R(-1)>>)), Single(Sec(I(<<1, -2>>), <<R(1), Half, Half>>)),
+                 [comb |-> "cascade", secs |-> <<Sec(I(<<1, 1>>), I(<<1>>)), Sec(I(<<1>>), <<R(1), Half>>)>>],
+                 [comb |-> "parallel", secs |-> <<Sec(I(<<1, 2>>), I(<<2>>)), Sec(I(<<0, 1>>), <<R(2), R(-1)>>)>>]}
 OrdMs == {<<>>, <<2>>, <<3, 1, 1, 0>>, <<0, 1, 2, 3, 2, 1>>}
 SetMs == {<<>>, <<1>>, <<0, 3, 2>>, <<3, 2, 1, 0>>}
-FrCont == {[kind |-> "fr", filt |-> f, ms |-> ms, cont |-> ct] :
-             f \in ContFilts, ms \in OrdMs, ct \in {"list", "tuple", "deque", "Stream", "generator", "map"}}
-     \cup {[kind |-> "fr", filt |-> f, ms |-> ms, cont |-> ct] : f \in ContFilts, ms \in SetMs, ct \in SetKinds}
-     \cup {[kind |-> "fr", filt |-> f, ms |-> <<m>>, cont |-> "scalar"] : f \in ContFilts, m \in 0..3}
+FrCont(u) ==
+       {[kind |-> "fr", filt |-> f, ms |-> ms, cont |-> ct] :
+             f \in ContFilts(u), ms \in OrdMs, ct \in {"list", "tuple", "deque", "Stream", "generator", "map"}}
+  \cup {[kind |-> "fr", filt |-> f, ms |-> ms, cont |-> ct] : f \in ContFilts(u), ms \in SetMs, ct \in SetKinds}
+  \cup {[kind |-> "fr", filt |-> f, ms |-> <<m>>, cont |-> "scalar"] : f \in ContFilts(u), m \in 0..3}
 
-\* --- cascades and parallel banks of 2 and 3 sections
+\* --- cascades and parallel banks of 1, 2 and 3 sections
 SecPoolQ == {Sec(I(<<1, 1>>), I(<<1>>)), Sec(I(<<1, -2>>), I(<<2>>)), Sec(I(<<0, 1>>), <<R(1), Half>>),
              Sec(I(<<2>>), I(<<1, -1>>)), Sec(I(<<1, 0, -1>>), <<R(2), R(0), Half>>), Sec(I(<<1, -1>>), I(<<1>>)),
              SecAdv(I(<<1, 2>>), I(<<1>>), 1)}
 SecPoolT == SecPoolQ \cup {Sec(I(<<-1, 2, 1>>), <<R(2), R(-1)>>), Sec(<<Half, R(-1)>>, I(<<1, 0, -1>>)),
                            Sec(I(<<0, 0, 1>>), I(<<1>>)), Sec(<<>>, I(<<1>>)), Sec(I(<<2, 1>>), <<R(1), Half, Half>>)}
-Comb(f) == [kind |-> "fr", filt |-> f, ms |-> MsFor(f), cont |-> "list"]
-FrComb2(P) == {Comb([comb |-> cb, secs |-> <<s, t>>]) : cb \in {"cascade", "parallel"}, s \in P, t \in P}
-FrComb3(P) == {Comb([comb |-> cb, secs |-> <<s, t, u>>]) : cb \in {"cascade", "parallel"}, s \in P, t \in P, u \in P}
-FrComb1(P) == {Comb([comb |-> cb, secs |-> <<s>>]) : cb \in {"cascade", "parallel"}, s \in P}
-Pool3Q == {Sec(I(<<1, 1>>), I(<<1>>)), Sec(I(<<0, 1>>), <<R(1), Half>>), Sec(I(<<2>>), I(<<1, -1>>)),
-           Sec(I(<<1, -2>>), I(<<2>>))}
+Pool3Q   == {Sec(I(<<1, 1>>), I(<<1>>)), Sec(I(<<0, 1>>), <<R(1), Half>>), Sec(I(<<2>>), I(<<1, -1>>)),
+             Sec(I(<<1, -2>>), I(<<2>>))}
+Combs == {"cascade", "parallel"}
+FrComb1(P) == {FrList([comb |-> cb, secs |-> <<s>>]) : cb \in Combs, s \in P}
+FrComb2(P) == {FrList([comb |-> cb, secs |-> <<s, t>>]) : cb \in Combs, s \in P, t \in P}
+FrComb3(P) == {FrList([comb |-> cb, secs |-> <<s, t, u>>]) : cb \in Combs, s \in P, t \in P, u \in P}
 
-\* --- time domain: FIR filters fed a complex exponential / an impulse
-TdA(B, A0) == {[kind |-> "td", sec |-> Sec(b, <<R(a0)>>), m |-> m, sig |-> sg] :
-                 b \in B, a0 \in A0, m \in 0..3, sg \in {"exp", "imp"}}
-Td(B) == TdA(B, {1, 2})
-BTdQ == RSeqs({R(-1), R(0), R(1), R(2)}, {1, 2, 3}) \cup {I(<<1, -2, 0, 2>>), I(<<0, 0, 0, 1>>), <<Half, R(1), R(-1), Half>>,
-                                                        <<>>}
+\* --- time domain: FIR filters fed a complex exponential / an impulse               (group: the numerator b)
+TdOf(b, A0) == {[kind |-> "td", sec |-> Sec(b, <<R(a0)>>), m |-> m, sig |-> sg] :
+                  a0 \in A0, m \in 0..3, sg \in {"exp", "imp"}}
+BTdExtra == {I(<<1, -2, 0, 2>>), I(<<0, 0, 0, 1>>), <<Half, R(1), R(-1), Half>>, <<>>}
+TdA0(b, tier) == IF tier = "thorough" \/ (Len(b) \in {1, 2} /\ \A i \in DOMAIN b : b[i] # RZero) THEN {1, 2} ELSE {1}
 
-\* --- dft blocks
-XPoolQ == {CInt(-1, 0), CInt(0, 0), CInt(1, 0), CInt(2, 0), CInt(0, 1), CInt(1, -1)}
-XPoolT == XPoolQ \cup {CReal(Half), CInt(-2, 1)}
-NoLin  == [lin |-> FALSE, y |-> <<>>, al |-> RZero, be |-> RZero]
+\* --- dft blocks                                                    (group: first sample and block length)
+XPool(tier) == {CInt(-1, 0), CInt(0, 0), CInt(1, 0), CInt(2, 0), CInt(0, 1), CInt(1, -1)}
+               \cup (IF tier = "quick" THEN {} ELSE {CReal(Half), CInt(-2, 1)})
+XLens(tier) == IF tier = "quick" THEN {1, 2, 3} ELSE {1, 2, 3, 4}
 DftCase(x, ms, nm) == [kind |-> "dft", x |-> x, ms |-> ms, norm |-> nm, lin |-> FALSE, y |-> <<>>, al |-> RZero, be |-> RZero]
-DftBlocks(P, lens) == {DftCase(x, AllMs, nm) : x \in UNION {[1..n -> P] : n \in lens}, nm \in BOOLEAN}
-DftLong == {DftCase(x, ms, nm) :
-              x \in {[n \in 1..5 |-> CInt(n, 0)], [n \in 1..6 |-> CInt(n % 3, 1 - n)], [n \in 1..8 |-> UnitJ(n)],
-                     [n \in 1..7 |-> CReal(<<n, 2>>)]},
-              ms \in {AllMs, <<>>, <<3, 3, 0>>}, nm \in BOOLEAN}
+DftBlocksOf(x1, n, tier) == {DftCase(<<x1>> \o r, AllMs, nm) : r \in [1..(n - 1) -> XPool(tier)], nm \in BOOLEAN}
+DftLong(u) == {DftCase(x, ms, nm) :
+                 x \in {[n \in 1..5 |-> CInt(n, 0)], [n \in 1..6 |-> CInt(n % 3, 1 - n)], [n \in 1..8 |-> UnitJ(n)],
+                        [n \in 1..7 |-> CReal(<<n, 2>>)]},
+                 ms \in {AllMs, <<>>, <<3, 3, 0>>}, nm \in BOOLEAN}
      \cup {DftCase(<<>>, AllMs, FALSE)}
-DftLin(P, lens) ==
+DftLin(P) ==
   {[kind |-> "dft", x |-> x, ms |-> AllMs, norm |-> nm, lin |-> TRUE, y |-> y, al |-> al, be |-> be] :
-     x \in UNION {[1..n -> P] : n \in lens}, y \in {[n \in 1..3 |-> CInt(n, -1)], [n \in 1..3 |-> CInt(0, n - 2)]},
+     x \in [1..3 -> P], y \in {[n \in 1..3 |-> CInt(n, -1)], [n \in 1..3 |-> CInt(0, n - 2)]},
      nm \in BOOLEAN, al \in {R(2), R(-1)}, be \in {R(1), R(-3), Half}}
 
 Only(S) == {c \in S : Covered(c)}
 
-\* The grids take the tier as a parameter on purpose: TLC evaluates every parameterless constant definition
-\* at start-up, whichever configuration is run (the thorough grid would be built in a quick run).
-Grid(tier) ==
-  IF tier = "quick"
-  THEN Only(FrSingle(BSmall, ARecQ) \cup FrShapes \cup FrCont \cup FrComb1(SecPoolQ) \cup FrComb2(SecPoolQ)
-            \cup FrComb3(Pool3Q) \cup TdA(BTdQ, {1}) \cup TdA(RSeqs({R(-1), R(1), R(2)}, {1, 2}), {2}) \cup DftBlocks(XPoolQ, {1, 2, 3}) \cup DftLong
-            \cup DftLin({CInt(1, 0), CInt(0, 1), CInt(-1, 2)}, {3}))
-  ELSE Only(FrSingle(BFull, ARec) \cup FrShapes \cup FrCont \cup FrComb1(SecPoolT) \cup FrComb2(SecPoolT)
-            \cup FrComb3(SecPoolQ) \cup Td(BFull \cup BTdQ) \cup DftBlocks(XPoolT, {1, 2, 3, 4}) \cup DftLong
-            \cup DftLin(XPoolQ, {3}))
+\* the group keys of a tier and the cases of a group
+Groups(tier) ==
+       {Key("frsingle", b, <<>>, 0) : b \in BPool(tier)}
+  \cup {Key("td", b, <<>>, 0) : b \in BPool(tier) \cup BTdExtra}
+  \cup {Key("dft", <<>>, <<x1>>, n) : x1 \in XPool(tier), n \in XLens(tier)}
+  \cup {Key("misc", <<>>, <<>>, n) : n \in 1..7}
+
+CasesOf(g, tier) ==
+  Only(CASE g.t = "frsingle" -> FrSingleOf(g.b, tier)
+         [] g.t = "td"       -> TdOf(g.b, TdA0(g.b, tier))
+         [] g.t = "dft"      -> DftBlocksOf(g.x[1], g.n, tier)
+         [] g.t = "misc"     ->
+              CASE g.n = 1 -> FrShapes(0)
+                [] g.n = 2 -> FrCont(0)
+                [] g.n = 3 -> FrComb1(IF tier = "quick" THEN SecPoolQ ELSE SecPoolT)
+                [] g.n = 4 -> FrComb2(IF tier = "quick" THEN SecPoolQ ELSE SecPoolT)
+                [] g.n = 5 -> FrComb3(IF tier = "quick" THEN Pool3Q ELSE SecPoolQ)
+                [] g.n = 6 -> DftLong(0)
+                [] g.n = 7 -> DftLin(IF tier = "quick" THEN {CInt(1, 0), CInt(0, 1), CInt(-1, 2)} ELSE XPool("quick")))
+
+\* the grid of a tier: a function that TLC keeps unevaluated until a group is picked
+Grid(tier) == [g \in Groups(tier) |-> CasesOf(g, tier)]
 ============================================================================
